@@ -21,7 +21,7 @@ import (
 // The write operations of the forced-schedule table. Each runs through the executor, so
 // the reference model records the acknowledged effect.
 type c14Write struct {
-	name  string // hook prefix op.<name> (unless hook is set)
+	name  string // the first operation of the name gives the hook op.<X>.journaled, unless c14Hook names another
 	setup func(x *vexec.Exec)
 	do    func(x *vexec.Exec) error
 }
@@ -110,6 +110,81 @@ var c14Writes = []c14Write{
 		return c14Seq(func() error { return x.VSetMetadata("ix", "p0", map[string]any{"seq": 9.0, "a": "x"}) },
 			func() error { return x.VSetMetadata("ix", "p0", map[string]any{"seq": 10.0}) })
 	}},
+	// ---- write kinds the statement's "a write" also covers (each has an executor method) ----
+	// drop of a second index: flushes, drops, then takes a snapshot of its own and journals VDROP again
+	{"VDeleteIndex", c14SetupWother, func(x *vexec.Exec) error { return x.VDeleteIndex("wother") }},
+	// applied in memory BEFORE it is journaled; the only hook is .applied (see c14Hook)
+	{"VUpdateAutoLinks", nil, func(x *vexec.Exec) error {
+		return x.VUpdateAutoLinks("ix", []hnsw.AutoLinkRule{{MetadataField: "parent", RelationType: "child_of"}})
+	}},
+	// delete of a node with an incoming edge (p2 -r-> p0): the cascade journals its VUnlink from a
+	// background goroutine after the acknowledgement; parked at the VDELETE / at the cascade's GUNLINK
+	{"VDelete(cascade)", nil, func(x *vexec.Exec) error { return x.VDelete("ix", "p0") }},
+	{"VDelete(cascade)@VUnlink", nil, func(x *vexec.Exec) error { return x.VDelete("ix", "p0") }},
+	// cosine/int8 index with an auto-link rule: VQUANT is journaled after the apply, the nested
+	// VLink after the apply gate was released
+	{"VAdd(int8,autolink)", c14SetupAx, func(x *vexec.Exec) error {
+		return x.VAdd("ax", "c1", []float32{0.5, 2.5}, map[string]any{"parent": "a0", "seq": 1.0})
+	}},
+	{"VAdd(int8,autolink)@VLink", c14SetupAx, func(x *vexec.Exec) error {
+		return x.VAdd("ax", "c1", []float32{0.5, 2.5}, map[string]any{"parent": "a0", "seq": 1.0})
+	}},
+	{"VAddBatch(int8)", c14SetupAx, func(x *vexec.Exec) error {
+		return x.VAddBatch("ax", []types.BatchObject{{Id: "c2", Vector: []float32{-3, 0.25}, Metadata: map[string]any{"parent": "a0"}}, {Id: "c3", Vector: []float32{0.1, -4}}})
+	}},
+	// several ids: the apply gate is released and taken again between two ids
+	{"VReinforce(3)", nil, func(x *vexec.Exec) error { return x.VReinforce("ix", []string{"p0", "p1", "p2"}) }},
+	// VLink(s) + VAdd + VSetMetadata under one call; parked at the VADD in the middle
+	{"VEvolve", nil, func(x *vexec.Exec) error {
+		_, err := x.VEvolve("ix", "p0", []float32{5, 5}, map[string]any{"seq": 2.0}, "c14")
+		return err
+	}},
+	// more writes that straddle the admin operation (second part in c14After)
+	{"KVSet|KVDelete(after)", nil, func(x *vexec.Exec) error { return x.KVSet("sk", []byte("v1")) }},
+	{"KVSet|KVSet(after)", nil, func(x *vexec.Exec) error { return x.KVSet("sk", []byte("v1")) }},
+	{"VCreate|VDeleteIndex(after)", nil, func(x *vexec.Exec) error {
+		return x.VCreate(vexec.IndexCfg{Name: "wix", Metric: distance.Euclidean, Prec: distance.Float32, M: 4, EfC: 8})
+	}},
+	{"VAdd|VSetMetadata(after)", nil, func(x *vexec.Exec) error {
+		return x.VAdd("ix", "straddle", []float32{7, 7}, map[string]any{"seq": 1.0})
+	}},
+	{"VLink|VLink(other weight)(after)", nil, func(x *vexec.Exec) error { return x.VLink("ix", "p1", "p0", "r", "ri", 2, nil) }},
+	{"VUnlink(hard)|VLink(after)", nil, func(x *vexec.Exec) error { return x.VUnlink("ix", "p2", "p0", "r", "", true) }},
+}
+
+// c14Hook: the hook point that parks the writer in order "journaled_before" when it is not
+// op.<first operation of the name>.journaled.
+var c14Hook = map[string]string{
+	"VUpdateAutoLinks":          "op.VUpdateAutoLinks.applied", // applied, journaled, gate still held
+	"VDelete(cascade)":          "op.VDelete.journaled",
+	"VDelete(cascade)@VUnlink":  "op.VUnlink.journaled", // the cascade goroutine's nested unlink
+	"VAdd(int8,autolink)":       "op.VAdd.journaled",
+	"VAdd(int8,autolink)@VLink": "op.VLink.journaled", // the nested auto-link
+	"VAddBatch(int8)":           "op.VAddBatch.journaled",
+	"VReinforce(3)":             "op.VReinforce.journaled",
+	"VEvolve":                   "op.VAdd.journaled",
+}
+
+func (w c14Write) hook() string {
+	if h := c14Hook[w.name]; h != "" {
+		return h
+	}
+	return "op." + w.hookOp() + ".journaled"
+}
+
+func c14SetupWother(x *vexec.Exec) {
+	x.VCreate(vexec.IndexCfg{Name: "wother", Metric: distance.Euclidean, Prec: distance.Float32, M: 4, EfC: 8})
+	x.VAdd("wother", "o0", []float32{1, 2}, map[string]any{"seq": 0.0})
+}
+
+// c14SetupAx: a cosine/int8 index with an auto-link rule and a maintenance config.
+func c14SetupAx(x *vexec.Exec) {
+	mc := hnsw.DefaultMaintenanceConfig()
+	mc.DeleteThreshold = 0.25
+	x.VCreate(vexec.IndexCfg{Name: "ax", Metric: distance.Cosine, Prec: distance.Int8, M: 4, EfC: 8, Maint: &mc,
+		AutoLinks: []hnsw.AutoLinkRule{{MetadataField: "parent", RelationType: "child_of"}}})
+	x.VAdd("ax", "a0", []float32{1, 1}, map[string]any{"seq": 0.0})
+	x.VAdd("ax", "a1", []float32{-1, 0.5}, nil)
 }
 
 // c14After: the second part of a straddling write.
@@ -117,13 +192,66 @@ var c14After = map[string]func(x *vexec.Exec) error{
 	"VAdd|VDelete(after)":         func(x *vexec.Exec) error { return x.VDelete("ix", "straddle") },
 	"VSetMetadata|VDelete(after)": func(x *vexec.Exec) error { return x.VDelete("ix", "p1") },
 	"VLink|VUnlink(after)":        func(x *vexec.Exec) error { return x.VUnlink("ix", "p1", "p0", "r", "ri", false) },
+	"KVSet|KVDelete(after)":       func(x *vexec.Exec) error { return x.KVDelete("sk") },
+	"KVSet|KVSet(after)":          func(x *vexec.Exec) error { return x.KVSet("sk", []byte("v2")) },
+	"VCreate|VDeleteIndex(after)": func(x *vexec.Exec) error { return x.VDeleteIndex("wix") },
+	"VAdd|VSetMetadata(after)": func(x *vexec.Exec) error {
+		return x.VSetMetadata("ix", "straddle", map[string]any{"seq": 2.0, "late": "y"})
+	},
+	"VLink|VLink(other weight)(after)": func(x *vexec.Exec) error { return x.VLink("ix", "p1", "p0", "r", "ri", 8, map[string]any{"k": "late"}) },
+	"VUnlink(hard)|VLink(after)":       func(x *vexec.Exec) error { return x.VLink("ix", "p2", "p0", "r", "", 3, nil) },
 }
 
 var c14SnapPhases = []string{"snap.begin", "snap.tmp_written", "snap.renamed", "snap.truncated", "snap.mode_ended", "snap.shadow_replayed"}
 var c14RwPhases = []string{"rw.begin", "rw.captured", "rw.tmp_flushed", "rw.replaced", "rw.mode_ended", "rw.shadow_replayed"}
 
-func c14Base(cs *vkit.Case) *vexec.Exec {
-	x := vexec.NewExec(cs, cs.SubDir("data"))
+// c14Admin: an operation that takes a snapshot or compacts the log. Besides the two API
+// calls the statement names, the other initiators of a snapshot: VCompress (swaps the index
+// object, then saves) and VDeleteIndex of another index (drops, saves, journals VDROP again).
+type c14Admin struct {
+	name   string
+	phases []string
+	setup  func(x *vexec.Exec)
+	run    func(x *vexec.Exec) error // engine call only: it runs beside the writer and must not touch the model
+	after  func(x *vexec.Exec)       // model update, on the case goroutine, once run has returned nil
+}
+
+func c14AdminOf(name string) *c14Admin {
+	switch name {
+	case "snapshot":
+		return &c14Admin{name: name, phases: c14SnapPhases, run: func(x *vexec.Exec) error { return x.E.SaveSnapshot() }}
+	case "rewrite":
+		return &c14Admin{name: name, phases: c14RwPhases, run: func(x *vexec.Exec) error { return x.E.RewriteAOF() }}
+	case "compress":
+		return &c14Admin{name: name,
+			phases: []string{"op.VCompress.rebuilt", "snap.begin", "snap.tmp_written", "snap.truncated", "snap.mode_ended"},
+			run:    func(x *vexec.Exec) error { return x.E.VCompress("ix", distance.Float16) },
+			after:  func(x *vexec.Exec) { x.M.Idx["ix"].Cfg.Prec = distance.Float16 }, // euclidean: values unchanged
+		}
+	case "dropother":
+		var removed int64
+		return &c14Admin{name: name,
+			phases: []string{"op.VDeleteIndex.journaled", "snap.begin", "snap.renamed", "snap.shadow_replayed"},
+			setup: func(x *vexec.Exec) {
+				x.VCreate(vexec.IndexCfg{Name: "other", Metric: distance.Euclidean, Prec: distance.Float32, M: 4, EfC: 8})
+				x.VAdd("other", "o0", []float32{1, 2}, map[string]any{"seq": 0.0})
+				removed = verifhook.Hits()["op.VDeleteIndex.remove_done"]
+			},
+			run: func(x *vexec.Exec) error { return x.E.VDeleteIndex("other") },
+			after: func(x *vexec.Exec) {
+				// the arena directory is removed by a goroutine of its own (see Exec.VDeleteIndex)
+				for i := 0; verifhook.Hits()["op.VDeleteIndex.remove_done"] <= removed && i < 2000000; i++ {
+					time.Sleep(20 * time.Microsecond)
+				}
+				delete(x.M.Idx, "other")
+			},
+		}
+	}
+	panic("unknown admin " + name)
+}
+
+func c14BaseIn(cs *vkit.Case, sub string) *vexec.Exec {
+	x := vexec.NewExec(cs, cs.SubDir(sub))
 	x.VCreate(vexec.IndexCfg{Name: "ix", Metric: distance.Euclidean, Prec: distance.Float32, M: 4, EfC: 8})
 	for i := 0; i < 3; i++ {
 		x.VAdd("ix", fmt.Sprintf("p%d", i), []float32{float32(i), 1}, map[string]any{"seq": 0.0})
@@ -132,6 +260,8 @@ func c14Base(cs *vkit.Case) *vexec.Exec {
 	x.KVSet("base", []byte("b"))
 	return x
 }
+
+func c14Base(cs *vkit.Case) *vexec.Exec { return c14BaseIn(cs, "data") }
 
 // gate returns a hook handler that parks the first goroutine reaching it until release.
 type c14Gate struct {
@@ -155,41 +285,219 @@ func (g *c14Gate) handler(string, any) {
 }
 func (g *c14Gate) open() { g.once.Do(func() { close(g.release) }) }
 
-func waitOr(cs *vkit.Case, ch <-chan struct{}, what string) bool {
-	select {
-	case <-ch:
-		return true
-	case <-time.After(20 * time.Second):
-		return false
+// The three roles of a forced schedule run through these functions, so that their
+// goroutines can be told apart in a goroutine dump (see c14Wait).
+//
+//go:noinline
+func c14AdminRun(a *c14Admin, x *vexec.Exec) error { return a.run(x) }
+
+//go:noinline
+func c14OtherRun(a *c14Admin, x *vexec.Exec) error { return a.run(x) }
+
+//go:noinline
+func c14CloseRun(e *engine.Engine) error { return e.Close() }
+
+// c14Failed carries a cs.Fail raised inside the writer goroutine (the executor's verdicts) to
+// the case goroutine, which raises it again; otherwise it would take the whole child down.
+type c14Failed struct{ r any }
+
+func (c14Failed) Error() string { return "the case failed inside the writer goroutine" }
+
+//go:noinline
+func c14WriteRun(wr c14Write, x *vexec.Exec) (err error) {
+	defer func() {
+		if r := recover(); r != nil {
+			err = c14Failed{r}
+		}
+	}()
+	return wr.do(x)
+}
+
+const (
+	c14AdminFrame = "engine_test.c14AdminRun"
+	c14OtherFrame = "engine_test.c14OtherRun"
+	c14CloseFrame = "engine_test.c14CloseRun"
+	c14WriteFrame = "engine_test.c14WriteRun"
+	// the delete cascade runs in a goroutine started by VDelete; the writer (Exec.VDelete)
+	// sleeps until it is done
+	c14CascadeFrame = "engine.(*Engine).VDelete.func"
+)
+
+// c14Parked: does the dump show a goroutine with this frame parked on a lock / wait group?
+func c14Parked(dump, frame string) bool {
+	for _, g := range strings.Split(dump, "\n\n") {
+		head, rest, _ := strings.Cut(g, "\n")
+		if !strings.Contains(head, "[sync.") && !strings.Contains(head, "[semacquire") {
+			continue
+		}
+		if strings.Contains(rest, frame) {
+			return true
+		}
+	}
+	return false
+}
+
+// c14Wait waits until reached is closed ("reached"), done delivers ("done"), or a goroutine
+// running one of the frames sits on a lock in two consecutive goroutine dumps ("blocked":
+// it waits for the side that the harness has parked). After 3 s without any of these the
+// answer is "blocked" as well. The answer only selects what the harness releases next: no
+// verdict depends on it or on the timer.
+func c14Wait(reached <-chan struct{}, done <-chan error, frames ...string) (string, error) {
+	step := 2 * time.Millisecond
+	seen := 0
+	deadline := time.Now().Add(3 * time.Second)
+	for {
+		select {
+		case <-reached:
+			return "reached", nil
+		case err := <-done:
+			return "done", err
+		case <-time.After(step):
+		}
+		if time.Now().After(deadline) {
+			return "blocked", nil
+		}
+		dump := vkit.DumpGoroutines()
+		hit := false
+		for _, f := range frames {
+			hit = hit || c14Parked(dump, f)
+		}
+		if hit {
+			if seen++; seen >= 2 {
+				return "blocked", nil
+			}
+		} else {
+			seen = 0
+		}
+		if step < 64*time.Millisecond {
+			step *= 2
+		}
 	}
 }
+
+// c14CloseWritePhase: in order close_at_phase the write is issued while the admin operation
+// is parked at this phase: after the state capture when Close comes later than that (the
+// write then lives only in the shadow buffer), else at the phase of the Close itself.
+func c14CloseWritePhase(admin, closePhase string) string {
+	phases, captured := c14SnapPhases, 1
+	if admin == "rewrite" {
+		phases = c14RwPhases
+	}
+	for i, p := range phases {
+		if p == closePhase && i < captured {
+			return closePhase
+		}
+	}
+	return phases[captured]
+}
+
+type c14Sched struct {
+	w     int
+	admin string
+	phase string
+	// "journaled_before": writer parked between journal and apply while the admin op runs to the phase;
+	// "arrives_during": whole write while the admin op is parked at the phase;
+	// "arrives_during+overlap": the same, then the OTHER of SaveSnapshot / RewriteAOF is requested while the first is still parked;
+	// "close_at_phase": write while the admin op is parked, then Engine.Close while it is parked at the phase
+	order string
+}
+
+// subsets of the write table for the reduced products (by name)
+var c14CompressWrites = []string{"KVSet", "VAdd", "VAddBatch", "VDelete", "VSetMetadata", "VReinforce", "VLink", "VUpdateIndexConfig", "VUpdateAutoLinks", "VDelete(cascade)", "VDelete+VAdd", "VEvolve"}
+var c14DropWrites = []string{"KVSet", "VAdd", "VDelete", "VLink", "VCreate", "VDeleteIndex"}
+var c14OverlapWrites = []string{"KVSet", "VAdd", "VDelete", "VLink(evolve)+VUnlink+VLink"}
+var c14CloseWrites = []string{"KVSet", "KVDelete", "VAdd", "VAddBatch", "VDelete", "VSetMetadata", "VLink", "VUnlink+VLink+VUnlink"}
+
+// c14CompressLoses: the rows that fail while finding D-C14-2 is open (generator guard): the
+// writer is parked at the journaled point of an operation that afterwards touches the index
+// object of "ix", which VCompress has replaced meanwhile. (VSetMetadata / VReinforce /
+// VUpdateAutoLinks in the same window happen to survive and stay in.)
+func c14CompressLoses(wr c14Write) bool {
+	if strings.Contains(wr.name, "(int8") {
+		return false // written to index "ax", which is not compressed
+	}
+	switch wr.hook() {
+	case "op.VAdd.journaled", "op.VAddBatch.journaled", "op.VDelete.journaled", "op.VUpdateIndexConfig.journaled":
+		return true
+	}
+	return false
+}
+
+// c14Table: the forced-schedule table. full (thorough tier): the reduced products are taken
+// over every write and every phase.
+func c14Table(full bool) []c14Sched {
+	byName := map[string]int{}
+	var all []string
+	for i, w := range c14Writes {
+		byName[w.name] = i
+		all = append(all, w.name)
+	}
+	idx := func(n string) int {
+		i, ok := byName[n]
+		if !ok {
+			panic("no write " + n)
+		}
+		return i
+	}
+	var table []c14Sched
+	for w := range c14Writes {
+		for _, admin := range []string{"snapshot", "rewrite"} {
+			for _, ph := range c14AdminOf(admin).phases {
+				for _, ord := range []string{"journaled_before", "arrives_during"} {
+					table = append(table, c14Sched{w, admin, ph, ord})
+				}
+			}
+		}
+	}
+	for _, sub := range []struct {
+		admin  string
+		writes []string
+	}{{"compress", c14CompressWrites}, {"dropother", c14DropWrites}} {
+		writes, phases := sub.writes, c14AdminOf(sub.admin).phases
+		if full {
+			writes = all
+			phases = append([]string{phases[0]}, c14SnapPhases...)
+		}
+		for _, n := range writes {
+			for _, ph := range phases {
+				for _, ord := range []string{"journaled_before", "arrives_during"} {
+					table = append(table, c14Sched{idx(n), sub.admin, ph, ord})
+				}
+			}
+		}
+	}
+	for _, sub := range []struct {
+		order  string
+		writes []string
+	}{{"arrives_during+overlap", c14OverlapWrites}, {"close_at_phase", c14CloseWrites}} {
+		writes := sub.writes
+		if full {
+			writes = all
+		}
+		for _, n := range writes {
+			for _, admin := range []string{"snapshot", "rewrite"} {
+				for _, ph := range c14AdminOf(admin).phases {
+					table = append(table, c14Sched{idx(n), admin, ph, sub.order})
+				}
+			}
+		}
+	}
+	return table
+}
+
+// c14CloseLost: the phases at which Engine.Close beside a running SaveSnapshot / RewriteAOF
+// loses acknowledged writes while finding D-C14-1 is open (generator guard).
+var c14CloseLost = map[string]bool{"snap.begin": true, "snap.mode_ended": true, "rw.mode_ended": true}
 
 // C14 — no acknowledged write is lost to a concurrent snapshot, compaction or shutdown.
 func TestVerifC14(t *testing.T) {
 	vkit.Run(t, "C14", func(ctx *vkit.Ctx) {
-		// ---- forced schedules: the complete table {write op} x {admin op} x {phase} x {order} ----
-		type sched struct {
-			w     int
-			admin string
-			phase string
-			order string // "journaled_before": writer parked between journal and apply while the admin op runs to the phase; "arrives_during": whole write while the admin op is parked at the phase
-		}
-		var table []sched
-		for w := range c14Writes {
-			for _, admin := range []string{"snapshot", "rewrite"} {
-				phases := c14SnapPhases
-				if admin == "rewrite" {
-					phases = c14RwPhases
-				}
-				for _, ph := range phases {
-					for _, ord := range []string{"journaled_before", "arrives_during"} {
-						table = append(table, sched{w, admin, ph, ord})
-					}
-				}
-			}
-		}
+		// ---- forced schedules: the table {write op} x {admin op} x {phase} x {order} ----
+		table := c14Table(!ctx.Quick())
 		ctx.Count("schedule_table_size", int64(len(table)))
 		known13 := ctx.IsKnown("D13")
+		knownClose := ctx.IsKnown("D-C14-1")
+		knownCompress := ctx.IsKnown("D-C14-2")
 		ctx.Group("schedule", len(table), func(cs *vkit.Case) {
 			defer verifhook.Reset()
 			s := table[cs.Idx]
@@ -200,6 +508,15 @@ func TestVerifC14(t *testing.T) {
 				ctx.Count("guard.D13_skipped", 1)
 				return
 			}
+			if knownClose && s.order == "close_at_phase" && c14CloseLost[s.phase] {
+				ctx.Count("guard.D-C14-1_skipped", 1)
+				return
+			}
+			if knownCompress && s.admin == "compress" && s.order == "journaled_before" && c14CompressLoses(wr) {
+				ctx.Count("guard.D-C14-2_skipped", 1)
+				return
+			}
+			adm := c14AdminOf(s.admin)
 			x := c14Base(cs)
 			defer func() {
 				if x.E != nil {
@@ -209,9 +526,24 @@ func TestVerifC14(t *testing.T) {
 			if wr.setup != nil {
 				wr.setup(x)
 			}
+			if adm.setup != nil {
+				adm.setup(x)
+			}
 			cs.Op("schedule: write %s %s, %s at %s", wr.name, s.order, s.admin, s.phase)
-			res := c14RunSchedule(cs, x, wr, s.admin, s.phase, s.order)
+			hits0 := verifhook.Hits()
+			res := c14RunSchedule(ctx, cs, x, wr, adm, s.phase, s.order)
+			cs.Op("outcome: %s", res)
 			ctx.Count("sched."+res, 1)
+			ctx.Count("order."+s.order, 1)
+			// the hook points the schedule relies on must have been passed (a counter, not a
+			// timer): a renamed or moved point would turn the row into a sequential run
+			hits1 := verifhook.Hits()
+			if hits1[s.phase] == hits0[s.phase] {
+				ctx.Inconclusive(fmt.Sprintf("schedule %s / %s: hook point %s was never passed (renamed or moved?)", wr.name, s.admin, s.phase))
+			}
+			if s.order == "journaled_before" && hits1[wr.hook()] == hits0[wr.hook()] {
+				ctx.Inconclusive(fmt.Sprintf("schedule %s / %s: the writer never passed hook point %s (renamed or moved?)", wr.name, s.admin, wr.hook()))
+			}
 			if after := c14After[wr.name]; after != nil {
 				if err := after(x); err != nil {
 					cs.Fail("second part of %s failed: %v", wr.name, err)
@@ -219,14 +551,20 @@ func TestVerifC14(t *testing.T) {
 				x.Settle()
 			}
 			// every acknowledged write (the executor recorded it in the model) must be there
-			// now and after a restart
+			// now and after a restart (statement, first sentence; for close_at_phase the engine
+			// was already closed and opened again: "Close persists every write acknowledged
+			// before it")
 			if msg := x.CheckFull(); msg != "" {
-				cs.Fail("after schedule: %s", msg)
+				cs.Fail("after schedule (%s): %s", res, msg)
 			}
-			c01Restart(ctx, cs, x, fmt.Sprintf("restart after %s %s / %s at %s", wr.name, s.order, s.admin, s.phase))
+			where := fmt.Sprintf("%s %s / %s at %s", wr.name, s.order, s.admin, s.phase)
+			c01Restart(ctx, cs, x, "restart after "+where)
+			// the first Open may journal repairs of its own (an unfinished delete cascade): what
+			// it recovered must still be there after one more restart
+			c01Restart(ctx, cs, x, "second restart after "+where)
 			ctx.Eval(1)
 			ctx.Distinct(fmt.Sprintf("%s|%s|%s|%s|%s", wr.name, s.admin, s.phase, s.order, res))
-			ctx.Sample("schedule", 3, map[string]any{"write": wr.name, "admin": s.admin, "phase": s.phase, "order": s.order, "outcome": res})
+			ctx.Sample("schedule/"+s.order, 2, map[string]any{"write": wr.name, "admin": s.admin, "phase": s.phase, "order": s.order, "outcome": res})
 		})
 
 		ctx.Probe("D13", func(cs *vkit.Case) string {
@@ -237,7 +575,7 @@ func TestVerifC14(t *testing.T) {
 					x.E.Close()
 				}
 			}()
-			c14RunSchedule(cs, x, c14Writes[0], "snapshot", "snap.begin", "journaled_before")
+			c14RunSchedule(ctx, cs, x, c14Writes[0], c14AdminOf("snapshot"), "snap.begin", "journaled_before")
 			x.Settle()
 			x.CloseRaw()
 			x.Reopen()
@@ -247,41 +585,310 @@ func TestVerifC14(t *testing.T) {
 			return ""
 		})
 
-		// ---- free-running ownership protocol ----
-		ctx.Group("owners", ctx.N(40, 600), func(cs *vkit.Case) {
+		// D-C14-1: Engine.Close beside a running SaveSnapshot / RewriteAOF.
+		ctx.Probe("D-C14-1", func(cs *vkit.Case) string {
 			defer verifhook.Reset()
-			dir := cs.SubDir("data")
-			opts := vexec.Options(dir)
-			auto := cs.R.Chance(0.3)
-			if auto {
-				opts.AutoSaveThreshold = 1
-				opts.AutoSaveInterval = time.Nanosecond
-			}
-			e, err := engine.Open(opts)
-			if err != nil {
-				cs.Fail("open: %v", err)
-			}
-			e.VCreate("ix", distance.Euclidean, 4, 8, distance.Float32, "", nil, nil, nil)
-			nw := cs.R.Range(2, 6)
-			per := cs.R.Range(20, ctx.N(120, 400))
-			// seed-determined yields at hook points widen the journal/apply and phase windows
-			yieldSalt := uint32(cs.R.Intn(1 << 30))
-			var hits atomic.Uint32
-			verifhook.SetGlobal(func(name string, _ any) {
-				h := hits.Add(1)
-				if (h*2654435761+yieldSalt)%7 == 0 {
-					time.Sleep(time.Duration((h*40503+yieldSalt)%300) * time.Microsecond)
+			for i, sc := range [][2]string{{"snapshot", "snap.mode_ended"}, {"rewrite", "rw.mode_ended"}, {"snapshot", "snap.begin"}} {
+				x := c14BaseIn(cs, fmt.Sprintf("data%d", i))
+				res := c14RunSchedule(ctx, cs, x, c14Writes[0], c14AdminOf(sc[0]), sc[1], "close_at_phase")
+				msg := x.CheckFull()
+				x.Close()
+				verifhook.Reset()
+				if msg != "" {
+					return fmt.Sprintf("KVSet(wk) acknowledged while %s was parked at %s, then Engine.Close (returned nil) while it was parked at %s [%s]; after Open: %s",
+						sc[0], c14CloseWritePhase(sc[0], sc[1]), sc[1], res, msg)
 				}
-			})
-			type ack struct{ kv, vec, edge int64 }
-			acks := make([]ack, nw)
-			var wg sync.WaitGroup
-			var adminStop atomic.Bool
-			var snaps, rewrites atomic.Int64
+			}
+			return ""
+		})
+
+		// D-C14-2: VCompress swaps the index object while a write sits between journal and apply.
+		ctx.Probe("D-C14-2", func(cs *vkit.Case) string {
+			defer verifhook.Reset()
+			x := c14Base(cs)
+			defer func() {
+				if x.E != nil {
+					x.E.Close()
+				}
+			}()
+			var wr c14Write
+			for _, w := range c14Writes {
+				if w.name == "VDelete" {
+					wr = w
+				}
+			}
+			adm := c14AdminOf("compress")
+			res := c14RunSchedule(ctx, cs, x, wr, adm, "snap.begin", "journaled_before")
+			x.Settle()
+			x.CloseRaw()
+			x.Reopen()
+			if _, err := x.E.VGet("ix", "p1"); err == nil {
+				return fmt.Sprintf("VDelete(ix,p1) was acknowledged (journaled before VCompress(ix) swapped the index, applied to the replaced index object) [%s]; after restart p1 is back", res)
+			}
+			return ""
+		})
+
+		c14Owners(ctx, knownClose)
+	})
+}
+
+// c14RunSchedule drives one forced schedule and returns a label of what happened.
+func c14RunSchedule(ctx *vkit.Ctx, cs *vkit.Case, x *vexec.Exec, wr c14Write, adm *c14Admin, phase, order string) string {
+	adminGate := newGate()
+	verifhook.Set(phase, adminGate.handler)
+	gates := []*c14Gate{adminGate}
+	defer func() { // also when the case fails half-way: nobody stays parked (Close waits for some admin ops)
+		for _, g := range gates {
+			g.open()
+		}
+	}()
+	adminDone := make(chan error, 1)
+	writeDone := make(chan error, 1)
+	startAdmin := func() { go func() { adminDone <- c14AdminRun(adm, x) }() }
+	startWrite := func() { go func() { writeDone <- c14WriteRun(wr, x) }() }
+	writeErr := func(err error) {
+		if f, ok := err.(c14Failed); ok {
+			panic(f.r)
+		}
+		if err != nil {
+			cs.Fail("write %s failed: %v", wr.name, err)
+		}
+	}
+	var outcome []string
+	// awaitAdminAtPhase: the admin op has been started and should park at gate g
+	awaitAdmin := func(g *c14Gate, parked string) {
+		select {
+		case <-g.reached:
+			outcome = append(outcome, parked)
+		case err := <-adminDone:
+			adminDone <- err
+			outcome = append(outcome, "admin_finished_first")
+		case <-time.After(20 * time.Second):
+			g.open()
+			outcome = append(outcome, "phase_not_reached")
+		}
+	}
+	switch order {
+	case "journaled_before":
+		wgate := newGate()
+		gates = append(gates, wgate)
+		verifhook.Set(wr.hook(), wgate.handler)
+		startWrite()
+		select {
+		case <-wgate.reached:
+		case err := <-writeDone:
+			// the write finished without passing its journaled point (e.g. rejected)
+			writeDone <- err
+			outcome = append(outcome, "writer_not_parked")
+		case <-time.After(20 * time.Second):
+			wgate.open()
+			outcome = append(outcome, "writer_not_parked")
+		}
+		startAdmin()
+		switch w, err := c14Wait(adminGate.reached, adminDone, c14AdminFrame); w {
+		case "reached":
+			outcome = append(outcome, "admin_reached_phase")
+		case "done":
+			adminDone <- err
+			outcome = append(outcome, "admin_finished_first")
+		default:
+			// the admin op waits for the parked writer (the apply gate): release the writer
+			outcome = append(outcome, "admin_waits_for_writer")
+		}
+		wgate.open()
+		if w, err := c14Wait(nil, writeDone, c14WriteFrame, c14CascadeFrame); w == "done" {
+			writeErr(err)
+			adminGate.open()
+		} else {
+			// a later step of a compound write needs something the admin op holds at its phase
+			outcome = append(outcome, "write_waits_for_admin")
+			adminGate.open()
+			writeErr(<-writeDone)
+		}
+		if err := <-adminDone; err != nil {
+			cs.Fail("%s failed: %v", adm.name, err)
+		}
+	case "arrives_during", "arrives_during+overlap":
+		startAdmin()
+		awaitAdmin(adminGate, "admin_parked")
+		startWrite()
+		writePending := false
+		if w, err := c14Wait(nil, writeDone, c14WriteFrame, c14CascadeFrame); w == "done" {
+			writeErr(err)
+			outcome = append(outcome, "write_completed_during")
+		} else {
+			// the write needs something the parked admin op holds: let the admin op go on
+			outcome = append(outcome, "write_waits_for_admin")
+			writePending = true
+		}
+		var otherDone chan error
+		otherPending := false
+		if order == "arrives_during+overlap" {
+			// statement: "overlapping snapshot+compaction requests". The second request may
+			// fail or wait (the statement promises nothing about it); no write may be lost.
+			other := c14AdminOf(map[string]string{"snapshot": "rewrite", "rewrite": "snapshot"}[adm.name])
+			otherDone = make(chan error, 1)
+			go func() { otherDone <- c14OtherRun(other, x) }()
+			if w, err := c14Wait(nil, otherDone, c14OtherFrame); w == "done" {
+				if err != nil {
+					outcome = append(outcome, "second_admin_refused")
+				} else {
+					outcome = append(outcome, "second_admin_returned_nil")
+				}
+			} else {
+				outcome = append(outcome, "second_admin_waits")
+				otherPending = true
+			}
+		}
+		adminGate.open()
+		if writePending {
+			writeErr(<-writeDone)
+		}
+		if otherPending {
+			if err := <-otherDone; err != nil {
+				ctx.Count("sched.second_admin_error_after_wait", 1)
+			}
+		}
+		if err := <-adminDone; err != nil {
+			if order == "arrives_during" {
+				cs.Fail("%s failed: %v", adm.name, err)
+			}
+			// with an overlapping request the statement does not promise that either succeeds
+			ctx.Count("sched.first_admin_error_with_overlap", 1)
+		}
+	case "close_at_phase":
+		// statement: "Close persists every write acknowledged before it" — whatever a running
+		// snapshot / compaction is doing at that moment
+		wp := c14CloseWritePhase(adm.name, phase)
+		g1 := adminGate
+		if wp != phase {
+			g1 = newGate()
+			gates = append(gates, g1)
+			verifhook.Set(wp, g1.handler)
+		}
+		startAdmin()
+		awaitAdmin(g1, "admin_parked")
+		startWrite()
+		if w, err := c14Wait(nil, writeDone, c14WriteFrame, c14CascadeFrame); w == "done" {
+			writeErr(err)
+			outcome = append(outcome, "write_completed_during")
+		} else {
+			outcome = append(outcome, "write_waits_for_admin")
+			g1.open()
+			adminGate.open()
+			writeErr(<-writeDone)
+		}
+		x.Settle()
+		if g1 != adminGate {
+			g1.open()
+			awaitAdmin(adminGate, "admin_parked_for_close")
+		}
+		cs.Op("Close() while %s is at %s", adm.name, phase)
+		closeDone := make(chan error, 1)
+		e := x.E
+		go func() { closeDone <- c14CloseRun(e) }()
+		w, cerr := c14Wait(nil, closeDone, c14CloseFrame)
+		if w == "done" {
+			outcome = append(outcome, "close_returned_while_admin_parked")
+		} else {
+			outcome = append(outcome, "close_waits_for_admin")
+		}
+		adminGate.open()
+		if w != "done" {
+			cerr = <-closeDone
+		}
+		if err := <-adminDone; err != nil {
+			// the admin op was overtaken by the shutdown: it may fail, it must not destroy anything
+			outcome = append(outcome, "admin_error_after_close")
+		}
+		x.E = nil
+		if cerr != nil {
+			cs.Fail("Close beside %s at %s returned an error: %v", adm.name, phase, cerr)
+		}
+		verifhook.Reset()
+		x.Reopen()
+	}
+	verifhook.Reset()
+	if adm.after != nil {
+		adm.after(x)
+	}
+	sort.Strings(outcome)
+	return strings.Join(outcome, "+")
+}
+
+// c14Owners: the free-running ownership protocol. Each writer owns a set of items (statement:
+// "each item owned by one writer"), writes increasing sequence numbers to them and records a
+// sequence number after the call has returned (= acknowledged). Beside the writers run an
+// admin goroutine (SaveSnapshot / RewriteAOF / both at once) and/or the automatic triggers.
+// Oracle: after Close and Open every item is at or after its last acknowledged sequence
+// number (and not after the last issued one).
+func c14Owners(ctx *vkit.Ctx, knownClose bool) {
+	ctx.Group("owners", ctx.N(40, 600), func(cs *vkit.Case) {
+		defer verifhook.Reset()
+		dir := cs.SubDir("data")
+		opts := vexec.Options(dir)
+		opts.AOFWriteBufferSize = vkit.Pick(cs.R, []int{64, 4096, 65536})
+		// which background trigger is armed (statement: "including automatic background triggers")
+		trigger := vkit.Pick(cs.R, []string{"none", "none", "none", "none", "auto_snapshot", "auto_snapshot", "auto_rewrite", "auto_rewrite"})
+		withAdmin := trigger == "none" || cs.R.Chance(0.5)
+		closeEarly := cs.R.Chance(0.3)
+		switch trigger {
+		case "auto_snapshot":
+			opts.AutoSaveThreshold = 1
+			opts.AutoSaveInterval = time.Nanosecond
+		case "auto_rewrite":
+			opts.AofRewritePercentage = 1
+		}
+		e, err := engine.Open(opts)
+		if err != nil {
+			cs.Fail("open: %v", err)
+		}
+		e.VCreate("ix", distance.Euclidean, 4, 8, distance.Float32, "", nil, nil, nil)
+		if trigger == "auto_rewrite" {
+			// the trigger compares the log size with the size after the last compaction, which
+			// is zero for a log that was never compacted: compact once
+			if err := e.RewriteAOF(); err != nil {
+				cs.Fail("initial RewriteAOF: %v", err)
+			}
+		}
+		nw := cs.R.Range(2, 6)
+		per := cs.R.Range(20, ctx.N(120, 400))
+		// the automatic compaction needs a log of more than 1 MB: pad the KV values
+		pad := ""
+		if trigger == "auto_rewrite" {
+			pad = " " + strings.Repeat("p", 4<<10)
+		}
+		cs.Op("owners: writers=%d per=%d trigger=%s admin_goroutine=%v close_early=%v bufsize=%d", nw, per, trigger, withAdmin, closeEarly, opts.AOFWriteBufferSize)
+		// seed-determined yields at hook points widen the journal/apply and phase windows
+		yieldSalt := uint32(cs.R.Intn(1 << 30))
+		var hits atomic.Uint32
+		var snapBegun, rwBegun atomic.Int64
+		verifhook.SetGlobal(func(name string, _ any) {
+			switch name {
+			case "snap.begin":
+				snapBegun.Add(1)
+			case "rw.begin":
+				rwBegun.Add(1)
+			}
+			h := hits.Add(1)
+			if (h*2654435761+yieldSalt)%7 == 0 {
+				time.Sleep(time.Duration((h*40503+yieldSalt)%300) * time.Microsecond)
+			}
+		})
+		// per writer: last acknowledged sequence number of each owned item; -1 = the item's
+		// state is not determined by acknowledgements any more (one call of a pair failed)
+		type ack struct{ kv, vec, edge, kd, dvec, uedge, issued int64 }
+		acks := make([]ack, nw)
+		fresh := make([][]int64, nw) // fresh ids o<w>_f<s> acknowledged
+		var wg sync.WaitGroup
+		var adminStop atomic.Bool
+		var snaps, rewrites, adminStarted atomic.Int64
+		if withAdmin {
 			wg.Add(1)
 			go func() { // admin goroutine
 				defer wg.Done()
 				for i := 0; !adminStop.Load(); i++ {
+					adminStarted.Add(1)
 					switch i % 3 {
 					case 0:
 						if e.SaveSnapshot() == nil {
@@ -301,167 +908,190 @@ func TestVerifC14(t *testing.T) {
 					time.Sleep(200 * time.Microsecond)
 				}
 			}()
-			var writers sync.WaitGroup
-			for w := 0; w < nw; w++ {
-				writers.Add(1)
-				go func(w int) {
-					defer writers.Done()
-					id := fmt.Sprintf("o%d", w)
-					for s := int64(1); s <= int64(per); s++ {
-						if e.KVSet("kv_"+id, []byte(fmt.Sprint(s))) == nil {
-							atomic.StoreInt64(&acks[w].kv, s)
+		}
+		// triggered: the armed background trigger has started its operation often enough
+		// (without an admin goroutine every snap.begin / rw.begin comes from the trigger)
+		triggered := func() bool {
+			switch {
+			case trigger == "auto_snapshot" && !withAdmin:
+				return snapBegun.Load() >= 2
+			case trigger == "auto_rewrite" && !withAdmin:
+				return rwBegun.Load() >= 2 // the first one is the explicit call above
+			}
+			return true
+		}
+		// with a trigger armed the writers go on (paced) until it has fired while they write; the
+		// cap only bounds the case on a starved machine
+		maxSteps := int64(per)
+		if trigger != "none" {
+			maxSteps = int64(per) + 4000
+		}
+		var writers sync.WaitGroup
+		for w := 0; w < nw; w++ {
+			writers.Add(1)
+			go func(w int) {
+				defer writers.Done()
+				id := fmt.Sprintf("o%d", w)
+				a := &acks[w]
+				for s := int64(1); s <= maxSteps; s++ {
+					if s > int64(per) {
+						if triggered() {
+							break
 						}
-						var verr error
-						if s == 1 {
-							verr = e.VAdd("ix", id, []float32{float32(w), 1}, map[string]any{"seq": float64(s)})
+						time.Sleep(2 * time.Millisecond)
+						ctx.Touch()
+					}
+					atomic.StoreInt64(&a.issued, s)
+					if e.KVSet("kv_"+id, []byte(fmt.Sprint(s)+pad)) == nil {
+						atomic.StoreInt64(&a.kv, s)
+					}
+					var verr error
+					if s == 1 {
+						verr = e.VAdd("ix", id, []float32{float32(w), 1}, map[string]any{"seq": float64(s)})
+					} else {
+						verr = e.VSetMetadata("ix", id, map[string]any{"seq": float64(s)})
+					}
+					if verr == nil {
+						atomic.StoreInt64(&a.vec, s)
+					}
+					if e.VLink("ix", id, "hub", "r", "", float32(s), nil) == nil {
+						atomic.StoreInt64(&a.edge, s)
+					}
+					// delete + set of a key of its own
+					if s%4 == 0 && a.kd >= 0 {
+						if e.KVDelete("kd_"+id) != nil || e.KVSet("kd_"+id, []byte(fmt.Sprint(s))) != nil {
+							a.kd = -1
 						} else {
-							verr = e.VSetMetadata("ix", id, map[string]any{"seq": float64(s)})
-						}
-						if verr == nil {
-							atomic.StoreInt64(&acks[w].vec, s)
-						}
-						if e.VLink("ix", id, "hub", "r", "", float32(s), nil) == nil {
-							atomic.StoreInt64(&acks[w].edge, s)
+							atomic.StoreInt64(&a.kd, s)
 						}
 					}
-				}(w)
-			}
-			writers.Wait()
-			if auto {
-				time.Sleep(1200 * time.Millisecond) // let the 1 s background ticker fire once (no verdict depends on it)
-			}
+					// delete + re-add of a vector of its own (no edges: its delete cascade is empty)
+					if (s == 1 || s%5 == 0) && a.dvec >= 0 {
+						ok := true
+						if s > 1 {
+							ok = e.VDelete("ix", "d"+id) == nil
+						}
+						if !ok || e.VAdd("ix", "d"+id, []float32{float32(w), float32(s % 13)}, map[string]any{"seq": float64(s)}) != nil {
+							a.dvec = -1
+						} else {
+							atomic.StoreInt64(&a.dvec, s)
+						}
+					}
+					// unlink + link of an edge of its own
+					if s%3 == 0 && a.uedge >= 0 {
+						ok := true
+						if a.uedge > 0 {
+							ok = e.VUnlink("ix", id, "hub2", "u", "", s%2 == 0) == nil
+						}
+						if !ok || e.VLink("ix", id, "hub2", "u", "", float32(s), nil) != nil {
+							a.uedge = -1
+						} else {
+							atomic.StoreInt64(&a.uedge, s)
+						}
+					}
+					// a fresh vector id
+					if s%7 == 0 && s <= int64(per) {
+						if e.VAdd("ix", fmt.Sprintf("%s_f%d", id, s), []float32{float32(w), float32(s)}, map[string]any{"seq": float64(s)}) == nil {
+							fresh[w] = append(fresh[w], s)
+						}
+					}
+				}
+			}(w)
+		}
+		writers.Wait()
+		closeEarly = closeEarly && withAdmin
+		if closeEarly && knownClose {
+			// recorded finding D-C14-1 (probe): Close beside a running snapshot / compaction
+			ctx.Count("guard.D-C14-1_owners_close_not_early", 1)
+			closeEarly = false
+		}
+		var cerr error
+		if closeEarly {
+			// shutdown while the admin goroutine is inside an operation: no new one is started,
+			// the running one overlaps Close ("Close persists every write acknowledged before it")
+			adminStop.Store(true)
+			cerr = e.Close()
+			wg.Wait()
+			ctx.Count("owners.close_beside_admin", 1)
+		} else {
 			adminStop.Store(true)
 			wg.Wait()
-			verifhook.SetGlobal(nil)
-			if err := e.Close(); err != nil {
-				cs.Fail("Close: %v", err)
-			}
-			e, err = engine.Open(vexec.Options(dir))
+		}
+		verifhook.SetGlobal(nil)
+		if !closeEarly {
+			cerr = e.Close()
+		}
+		if cerr != nil {
+			cs.Fail("Close: %v", cerr)
+		}
+		e, err = engine.Open(vexec.Options(dir))
+		if err != nil {
+			cs.Fail("reopen: %v", err)
+		}
+		defer e.Close()
+		vecSeq := func(id string) int64 {
+			d, err := e.VGet("ix", id)
 			if err != nil {
-				cs.Fail("reopen: %v", err)
+				return 0
 			}
-			defer e.Close()
-			for w := 0; w < nw; w++ {
-				id := fmt.Sprintf("o%d", w)
-				var got int64
-				if v, ok := e.KVGet("kv_" + id); ok {
-					fmt.Sscan(string(v), &got)
-				}
-				if got < acks[w].kv || got > int64(per) {
-					cs.Fail("owner %d: KV seq after restart %d, last acknowledged %d (issued up to %d)", w, got, acks[w].kv, per)
-				}
-				d, err := e.VGet("ix", id)
-				var vs int64
-				if err == nil {
-					if f, ok := d.Metadata["seq"].(float64); ok {
-						vs = int64(f)
-					}
-				}
-				if vs < acks[w].vec || vs > int64(per) {
-					cs.Fail("owner %d: vector metadata seq after restart %d, last acknowledged %d", w, vs, acks[w].vec)
-				}
-				var es int64
-				edges, _ := e.VGetEdges("ix", id, "r", 0)
-				for _, ed := range edges {
-					if ed.TargetID == "hub" {
-						es = int64(ed.Weight)
-					}
-				}
-				if es < acks[w].edge || es > int64(per) {
-					cs.Fail("owner %d: edge weight (seq) after restart %d, last acknowledged %d", w, es, acks[w].edge)
+			f, _ := d.Metadata["seq"].(float64)
+			return int64(f)
+		}
+		edgeSeq := func(id, hub, rel string) int64 {
+			var es int64
+			edges, _ := e.VGetEdges("ix", id, rel, 0)
+			for _, ed := range edges {
+				if ed.TargetID == hub {
+					es = int64(ed.Weight)
 				}
 			}
-			ctx.Count("owner_items_checked", int64(3*nw))
-			ctx.Count("snapshots_completed", snaps.Load())
-			ctx.Count("rewrites_completed", rewrites.Load())
-			ctx.Count("hook_hits", int64(hits.Load()))
-			ctx.Eval(1)
-			ctx.Distinct(fmt.Sprintf("owners/%d/%d/%v/%d/%d", nw, per/20, auto, snaps.Load()/5, rewrites.Load()/5))
-		})
+			return es
+		}
+		checked := 0
+		for w := 0; w < nw; w++ {
+			id := fmt.Sprintf("o%d", w)
+			a := acks[w]
+			var got int64
+			if v, ok := e.KVGet("kv_" + id); ok {
+				fmt.Sscan(string(v), &got)
+			}
+			demand := func(what string, got, acked int64) {
+				if acked < 0 {
+					return
+				}
+				checked++
+				if got < acked || got > a.issued {
+					cs.Fail("owner %d: %s after restart %d, last acknowledged %d (issued up to %d)", w, what, got, acked, a.issued)
+				}
+			}
+			demand("KV seq", got, a.kv)
+			demand("vector metadata seq", vecSeq(id), a.vec)
+			demand("edge weight (seq)", edgeSeq(id, "hub", "r"), a.edge)
+			got = 0
+			if v, ok := e.KVGet("kd_" + id); ok {
+				fmt.Sscan(string(v), &got)
+			}
+			demand("deleted-and-set KV seq", got, a.kd)
+			demand("deleted-and-re-added vector seq", vecSeq("d"+id), a.dvec)
+			demand("unlinked-and-linked edge weight (seq)", edgeSeq(id, "hub2", "u"), a.uedge)
+			for _, s := range fresh[w] {
+				checked++
+				if g := vecSeq(fmt.Sprintf("%s_f%d", id, s)); g != s {
+					cs.Fail("owner %d: fresh vector %s_f%d was acknowledged; after restart its seq reads %d", w, id, s, g)
+				}
+			}
+		}
+		ctx.Count("owner_items_checked", int64(checked))
+		ctx.Count("snapshots_completed", snaps.Load())
+		ctx.Count("rewrites_completed", rewrites.Load())
+		ctx.Count("snapshots_begun", snapBegun.Load())
+		ctx.Count("rewrites_begun", rwBegun.Load())
+		if !withAdmin {
+			ctx.Count("auto_triggered."+trigger, map[bool]int64{true: 1, false: 0}[triggered()])
+			ctx.Count("auto_cases."+trigger, 1)
+		}
+		ctx.Count("hook_hits", int64(hits.Load()))
+		ctx.Eval(1)
+		ctx.Distinct(fmt.Sprintf("owners/%d/%d/%s/%v/%v/%d/%d", nw, per/20, trigger, withAdmin, closeEarly, snaps.Load()/5, rewrites.Load()/5))
 	})
-}
-
-// c14RunSchedule drives one forced schedule and returns a label of what happened.
-func c14RunSchedule(cs *vkit.Case, x *vexec.Exec, wr c14Write, admin, phase, order string) string {
-	adminGate := newGate()
-	verifhook.Set(phase, adminGate.handler)
-	runAdmin := func() error {
-		if admin == "snapshot" {
-			return x.E.SaveSnapshot()
-		}
-		return x.E.RewriteAOF()
-	}
-	adminDone := make(chan error, 1)
-	writeDone := make(chan error, 1)
-	var outcome []string
-	switch order {
-	case "journaled_before":
-		wgate := newGate()
-		verifhook.Set("op."+wr.hookOp()+".journaled", wgate.handler)
-		go func() { writeDone <- wr.do(x) }()
-		if !waitOr(cs, wgate.reached, "writer at journaled") {
-			// the write finished without passing its journaled point (e.g. rejected)
-			wgate.open()
-			outcome = append(outcome, "writer_not_parked")
-		}
-		go func() { adminDone <- runAdmin() }()
-		select {
-		case <-adminGate.reached:
-			outcome = append(outcome, "admin_reached_phase")
-		case err := <-adminDone:
-			adminDone <- err
-			outcome = append(outcome, "admin_finished_first")
-		case <-time.After(3 * time.Second):
-			// the admin op waits for the parked writer (e.g. a lock): release the writer
-			outcome = append(outcome, "admin_waits_for_writer")
-		}
-		wgate.open()
-		select {
-		case err := <-writeDone:
-			if err != nil {
-				cs.Fail("write %s failed: %v", wr.name, err)
-			}
-			adminGate.open()
-		case <-time.After(3 * time.Second):
-			// a later step of a compound write needs something the admin op holds at its phase
-			outcome = append(outcome, "write_waits_for_admin")
-			adminGate.open()
-			if err := <-writeDone; err != nil {
-				cs.Fail("write %s failed: %v", wr.name, err)
-			}
-		}
-		if err := <-adminDone; err != nil {
-			cs.Fail("%s failed: %v", admin, err)
-		}
-	case "arrives_during":
-		go func() { adminDone <- runAdmin() }()
-		if !waitOr(cs, adminGate.reached, "admin at phase") {
-			adminGate.open()
-			outcome = append(outcome, "phase_not_reached")
-		} else {
-			outcome = append(outcome, "admin_parked")
-		}
-		go func() { writeDone <- wr.do(x) }()
-		select {
-		case err := <-writeDone:
-			if err != nil {
-				cs.Fail("write %s failed: %v", wr.name, err)
-			}
-			outcome = append(outcome, "write_completed_during")
-			adminGate.open()
-		case <-time.After(3 * time.Second):
-			// the write needs something the parked admin op holds: let the admin op go on
-			outcome = append(outcome, "write_waits_for_admin")
-			adminGate.open()
-			if err := <-writeDone; err != nil {
-				cs.Fail("write %s failed: %v", wr.name, err)
-			}
-		}
-		if err := <-adminDone; err != nil {
-			cs.Fail("%s failed: %v", admin, err)
-		}
-	}
-	verifhook.Reset()
-	sort.Strings(outcome)
-	return strings.Join(outcome, "+")
 }
